@@ -153,6 +153,26 @@ func (g *Gen) loopEffects(li loopInfo, h *ssa.BasicBlock) loopEffects {
 					if _, isB := s.Call.Value.(*ssa.Builtin); isB {
 						continue
 					}
+					// ghosts assigned by this contract's own `ghostset` clauses at a call inside the loop
+					// change in the loop (before: they kept their pre-loop value at the loop head, which
+					// made an invariant like `$n == i` contradictory after the first round and everything
+					// after the loop vacuous)
+					if g.c != nil {
+						disp := "call"
+						var sc *ssa.Function
+						if s.Call.IsInvoke() {
+							disp = s.Call.Method.Name()
+						} else if sc = s.Call.StaticCallee(); sc != nil {
+							disp = calleeKey(sc)
+						} else {
+							disp = "funcvalue"
+						}
+						for _, gs := range g.c.GhostSet {
+							if gs[0] == disp || (sc != nil && sc.Pkg != nil && gs[0] == sc.Pkg.Pkg.Name()+"."+disp) {
+								le.ghosts[gs[1]] = true
+							}
+						}
+					}
 					callee := s.Call.StaticCallee()
 					if callee != nil && callee.Signature.Recv() != nil && isBufPtr(callee.Signature.Recv().Type()) {
 						le.elems = true
@@ -601,6 +621,13 @@ func clauseName(c Clause, i int) string {
 
 // flow delivers state st along edge from->to.
 func (g *Gen) flow(li loopInfo, from, to *ssa.BasicBlock, st *State, in map[*ssa.BasicBlock][]*State, top bool) {
+	if top && g.lemma == nil && g.loopExit != nil {
+		for h, k := range li.ord {
+			if li.body[h][from] && !li.body[h][to] && to != h {
+				g.loopExit[k] = append(g.loopExit[k], st.pc) // an edge that leaves loop k
+			}
+		}
+	}
 	if to.Dominates(from) { // back edge
 		if k, ok := li.ord[to]; ok && top {
 			if g.lemma != nil && to == g.lemmaHdr {
